@@ -259,7 +259,13 @@ func indexHeader(
 		hdr.Size = int64(size)
 	}
 
-	if hdr.FileInfo().Mode().IsRegular() {
+	// The suffix is only added to the name of a record that carries content (a create record or a content update whose size was recorded); all other records, and entries whose own name ends in the suffix, keep their name
+	carriesContent := ok
+	if action, ok := hdr.PAXRecords[records.STFSRecordAction]; ok && action != records.STFSRecordActionCreate {
+		carriesContent = carriesContent && action == records.STFSRecordActionUpdate && hdr.PAXRecords[records.STFSRecordReplacesContent] == records.STFSRecordReplacesContentTrue
+	}
+
+	if hdr.FileInfo().Mode().IsRegular() && carriesContent {
 		newName, err := suffix.RemoveSuffix(hdr.Name, compressionFormat, encryptionFormat)
 		if err != nil {
 			return err
